@@ -559,46 +559,99 @@ pub mod c04_pure {
         validator::{Malicious, MaliciousAccumulator},
     };
     use crate::{
-        ff::{Fp31, Fp32BitPrime, PrimeField, U128Conversions},
+        ff::{Fp31, Fp32BitPrime, PrimeField, U128Conversions, ec_prime_field::Fp25519},
         helpers::Direction,
         ipa_verif::proto::*,
         protocol::{
             RecordId,
             prss::{FromPrss, PrssIndex, SharedRandomness},
         },
-        secret_sharing::replicated::{
-            ReplicatedSecretSharing,
-            malicious::{AdditiveShare as MaliciousReplicated, ExtendableField},
-            semi_honest::AdditiveShare as Replicated,
+        secret_sharing::{
+            SharedValueArray, Vectorizable,
+            replicated::{
+                ReplicatedSecretSharing,
+                malicious::{AdditiveShare as MaliciousReplicated, ExtendableField},
+                semi_honest::AdditiveShare as Replicated,
+            },
         },
         sharding::NotSharded,
         test_fixture::TestWorld,
     };
 
-    /// PRSS whose left / right values are scripted.
+    /// PRSS whose left / right values are scripted: chunk `i` of a draw (= lane `i` of a vectorised sharing)
+    /// is filled from `left[i]` / `right[i]`.
     struct Scripted {
-        left: u128,
-        right: u128,
+        left: Vec<Vec<u128>>,
+        right: Vec<Vec<u128>>,
+    }
+
+    impl Scripted {
+        fn scalar(l: u128, r: u128) -> Self {
+            Scripted { left: vec![vec![l]], right: vec![vec![r]] }
+        }
+
+        fn arr<Z: ArrayLength>(c: &[u128]) -> GenericArray<u128, Z> {
+            GenericArray::generate(|j| c[j % c.len()])
+        }
     }
 
     impl SharedRandomness for Scripted {
-        type ChunkIter<'a, Z: ArrayLength> = std::iter::Once<GenericArray<u128, Z>>;
+        type ChunkIter<'a, Z: ArrayLength> = std::vec::IntoIter<GenericArray<u128, Z>>;
 
         fn generate_chunks_one_side<I: Into<PrssIndex>, Z: ArrayLength>(
             &self,
             _index: I,
             direction: Direction,
         ) -> Self::ChunkIter<'_, Z> {
-            let v = if direction == Direction::Left { self.left } else { self.right };
-            std::iter::once(GenericArray::generate(|_| v))
+            let v = if direction == Direction::Left { &self.left } else { &self.right };
+            v.iter().map(|c| Self::arr::<Z>(c)).collect::<Vec<_>>().into_iter()
         }
 
         fn generate_chunks_iter<I: Into<PrssIndex>, Z: ArrayLength>(
             &self,
             _index: I,
         ) -> impl Iterator<Item = (GenericArray<u128, Z>, GenericArray<u128, Z>)> {
-            std::iter::once((GenericArray::generate(|_| self.left), GenericArray::generate(|_| self.right)))
+            self.left
+                .iter()
+                .zip(self.right.iter())
+                .map(|(l, r)| (Self::arr::<Z>(l), Self::arr::<Z>(r)))
+                .collect::<Vec<_>>()
+                .into_iter()
         }
+    }
+
+    /// 16-lane Fp25519 share (the shape used by eval_dy_prf): every argument is `v0+v1+…+v15`
+    fn vector16(acc: &RefCell<MaliciousAccumulator<Fp25519>>, t: &[&str]) -> String {
+        use crate::ipa_verif::c04::{dec_to_le, show, val};
+        const N: usize = 16;
+        type Arr = <Fp25519 as Vectorizable<N>>::Array;
+        let lanes = |s: &str| -> Vec<String> { s.split('+').map(str::to_string).collect() };
+        let arr = |s: &str| -> Arr {
+            let l = lanes(s);
+            assert_eq!(l.len(), N, "harness: 16 lanes expected");
+            SharedValueArray::from_fn(|i| val::<Fp25519>(&l[i]))
+        };
+        let chunks = |s: &str| -> Vec<Vec<u128>> {
+            lanes(s)
+                .iter()
+                .map(|v| {
+                    let b = dec_to_le(v, 32);
+                    vec![
+                        u128::from_le_bytes(b[0..16].try_into().unwrap()),
+                        u128::from_le_bytes(b[16..32].try_into().unwrap()),
+                    ]
+                })
+                .collect()
+        };
+        let share = MaliciousReplicated::<Fp25519, N>::new(
+            Replicated::new_arr(arr(t[4]), arr(t[5])),
+            Replicated::new_arr(arr(t[6]), arr(t[7])),
+        );
+        let mut acc = acc.borrow_mut();
+        let (u0, w0) = acc.u_and_w();
+        acc.accumulate_macs(&Scripted { left: chunks(t[2]), right: chunks(t[3]) }, RecordId::FIRST, &share);
+        let (u1, w1) = acc.u_and_w();
+        format!("{} {}", show::<Fp25519>(&(u1 - u0)), show::<Fp25519>(&(w1 - w0)))
     }
 
     fn one<F>(acc: &RefCell<MaliciousAccumulator<F>>, a: (u128, u128), x: (u128, u128), m: (u128, u128)) -> (u128, u128)
@@ -610,7 +663,7 @@ pub mod c04_pure {
         let share = MaliciousReplicated::<F>::new(Replicated::new(f(x.0), f(x.1)), Replicated::new(f(m.0), f(m.1)));
         let mut acc = acc.borrow_mut();
         let (u0, w0) = acc.u_and_w();
-        acc.accumulate_macs(&Scripted { left: a.0, right: a.1 }, RecordId::FIRST, &share);
+        acc.accumulate_macs(&Scripted::scalar(a.0, a.1), RecordId::FIRST, &share);
         let (u1, w1) = acc.u_and_w();
         ((u1 - u0).as_u128(), (w1 - w0).as_u128())
     }
@@ -704,6 +757,34 @@ pub mod c04_pure {
                 out.push(format!("c04.acc1 {f} {},{} {},{} {},{}", v[0], v[1], v[2], v[3], v[4], v[5]));
             }
         }
+        // 16-lane Fp25519 shares: every lane has its own coefficient
+        let ell_m1 = "7237005577332262213973186563042994240857116359379907606001950938285454250988";
+        let mut lane_vals = |rng: &mut Rng, style: usize| -> String {
+            (0..16)
+                .map(|i| match style {
+                    0 => "0".to_string(),
+                    1 => ell_m1.to_string(),
+                    2 => (i + 1).to_string(),
+                    3 => if i % 2 == 0 { "1".to_string() } else { ell_m1.to_string() },
+                    _ => {
+                        if rng.below(4) == 0 {
+                            let mut b = rng.bytes(32);
+                            b[31] &= 0x0f;
+                            crate::ipa_verif::c04::le_to_dec(&b)
+                        } else {
+                            (rng.next_u128() >> 3).to_string()
+                        }
+                    }
+                })
+                .collect::<Vec<_>>()
+                .join("+")
+        };
+        let nv = if thorough { 400 } else { 40 };
+        for k in 0..nv {
+            let st = |j: usize| if k < 12 { (k + j) % 5 } else { 4 };
+            let args: Vec<String> = (0..6).map(|j| lane_vals(rng, if j < 2 && k < 12 { 2 + (k + j) % 3 } else { st(j) })).collect();
+            out.push(format!("c04.accv Fp25519x16 {}", args.join(" ")));
+        }
         out
     }
 
@@ -713,7 +794,9 @@ pub mod c04_pure {
         let rt = tokio::runtime::Builder::new_multi_thread().worker_threads(2).enable_all().build().unwrap();
         let _guard = rt.enter();
         let world = TestWorld::<NotSharded>::default();
-        let [c1, c2, _c3]: [MaliciousContext<'_, NotSharded>; 3] = world.malicious_contexts();
+        let [c1, c2, c3]: [MaliciousContext<'_, NotSharded>; 3] = world.malicious_contexts();
+        let m25 = Malicious::<Fp25519, NotSharded>::new(c3.narrow("c04-fp25519").set_total_records(1usize), 0);
+        let a25 = RefCell::new(m25.accumulator);
         let m31 = Malicious::<Fp31, NotSharded>::new(c1.narrow("c04-fp31").set_total_records(1usize), 0);
         let m32 = Malicious::<Fp32BitPrime, NotSharded>::new(c2.narrow("c04-fp32").set_total_records(1usize), 0);
         let a31 = RefCell::new(m31.accumulator);
@@ -723,6 +806,7 @@ pub mod c04_pure {
             match t[1] {
                 "Fp31" => exec_f::<Fp31>(&a31, &t),
                 "Fp32BitPrime" => exec_f::<Fp32BitPrime>(&a32, &t),
+                "Fp25519x16" => vector16(&a25, &t),
                 f => panic!("harness: unknown field {f}"),
             }
         });
